@@ -1,13 +1,15 @@
-\* quick: 8 lattices (cubic F, hexagonal, monoclinic P and C, primitive rhombohedral, pseudo-symmetric orthorhombic,
-\* long-axis tetragonal, triclinic), 4 rings (cell tables, CellLaws, ScaleLaw), ring pairs r1 <= r2 <= 3 for the
-\* deterministic tie rules (the trace run, Orient_trace_q.cfg, covers every recorded ring pair of the 4 rings), both tie
-\* rules, block ends as written (bug) and repaired; Scales_q = the scale exponents of the instance family (the machine
-\* is scale free: ScaleLaw)
+\* quick: 10 lattices (cubic F, hexagonal, monoclinic P and C, primitive rhombohedral, pseudo-symmetric orthorhombic,
+\* long-axis tetragonal, triclinic, and two whose rings merge families of unequal d*: ortM, triM), ring table of 8 rings
+\* (cell tables, CellLaws, ScaleLaw, near-cut ring pairs), cases = ring pairs r1 <= r2 <= 3 + the near-cut ring pairs of
+\* every cell (CutCase) for the deterministic tie rules (the trace run, Orient_trace_q.cfg, covers every recorded ring
+\* pair), both tie rules, block ends as written (bug) and repaired; Scales_q = the scale exponents of the instance
+\* family (the machine is scale free: ScaleLaw)
 SPECIFICATION Spec
 CONSTANTS
   MODE = "rule"
   Cells <- Cells_q
   NR = 4
+  NRC = 8
   PairSel = "low"
   TieRules = {"fwd", "rev"}
   BugEnds = {TRUE, FALSE}
